@@ -57,9 +57,9 @@ CHECKS = {
         technique="Lean 4 proof (eraseRanks sublist/filter lemmas, loop invariant of minimize, generic closed-predicate invariant over the pair-strategy pass loop) + exhaustive-layout differential execution",
         ref="§4 C04"),
     "C09": dict(
-        text="Theorems C09_bound_minimize and C09_bound_pairs: against EVERY oracle (index- and content-dependent: adversarial, inconsistent, always-yes), every min, max >= 1, repeat mode, time limit and clock, the models of minimize, minimize-around and minimize-balanced terminate without exhausting their fuel (outer loop and every pass), flag no internal error (incl. the `assert` of the balanced pass: invariant count(S,0,lhs)*chunk = chunk_start) and run at most (n+1)*(n+ceil(log2 n)+2) tests (+1 initial check). minimize: potential function (len + log2(chunk) + removed)*(n+1) + chunk_end; pairs: every pass moves a chunk index strictly forward (<= num_chunks tests), every accepted proposal strictly shortens the testcase, so at most n + log2(chunk0) + 1 passes. collapse-brace and the two rewriting strategies: model (collapse) / monitor only. Correspondence and monitor: 4 removal + 2 rewriting strategies under adversarial scripts, complete verdict trees n <= 4, hill climbing, every splitter and custom symbol cut sets through the brace collapse, deletions that form a marker word; watchdog for loops that spin without starting a test.",
-        note=NOTE + "collapse-brace (the re-load can change the number of atoms) and the rewriting strategies: bound checked by the monitor only; replace-arguments-by-globals non-termination is a recorded finding; the collapse re-load raising LithiumError was a genuine defect (fixed: e840551).",
-        technique="Lean 4 proof (termination measure / potential function) + differential execution + adversarial verdict search",
+        text="Theorems C09_bound_minimize and C09_bound_pairs: against EVERY oracle (index- and content-dependent: adversarial, inconsistent, always-yes), every min, max >= 1, repeat mode, time limit and clock, the models of minimize, minimize-around and minimize-balanced terminate without exhausting their fuel (outer loop and every pass), flag no internal error (incl. the `assert` of the balanced pass: invariant count(S,0,lhs)*chunk = chunk_start) and run at most (n+1)*(n+ceil(log2 n)+2) tests (+1 initial check). minimize: potential function (len + log2(chunk) + removed)*(n+1) + chunk_end; pairs: every pass moves a chunk index strictly forward (<= num_chunks tests), every accepted proposal strictly shortens the testcase, so at most n + log2(chunk0) + 1 passes. Theorem C09_collapse_terminates: minimize-collapse-brace with ANY of the five splitters as re-loader (symbol: any delimiter sets) terminates against every oracle, flags no internal error and runs at most 2(C+1)(C+log2(C+1)+2)+2 tests, C = bytes of the file (measure: byte length of the best file; collapsing never adds a byte; never more atoms than bytes; the re-loaders partition their input into non-empty atoms by the C06 theorems). C09_collapse_regrows_counterexample: the stated bound in the number of ATOMS is false for that strategy (3 atoms, 49 tests, bound 29: the re-load of the collapsed text has 9 atoms) — recorded finding, reproduced on the real code on every run. The two rewriting strategies: monitor only. Correspondence and monitor: 4 removal + 2 rewriting strategies under adversarial scripts, complete verdict trees n <= 4, hill climbing, every splitter and custom symbol cut sets through the brace collapse, deletions that form a marker word; watchdog for loops that spin without starting a test.",
+        note=NOTE + "collapse-brace: termination/no-error/byte bound are theorems, the atom-count bound of the property is FALSE for it (recorded finding collapse-regrows-atoms, model counterexample theorem + replay on the real code). Rewriting strategies: bound checked by the monitor only; replace-arguments-by-globals non-termination is a recorded finding; the collapse re-load raising LithiumError was a genuine defect (fixed: e840551).",
+        technique="Lean 4 proof (termination measure / potential function; byte-length measure for the brace collapse) + differential execution + adversarial verdict search",
         ref="§4 C09"),
     "C10": dict(
         text="Theorems C10_exact_core / C10_exact_core_parts: for EVERY n, every testcase with pairwise distinct non-empty atoms (reducible or not, with prefix/suffix), every core of reducible atoms and every test that accepts exactly the deletions of the original still containing the core (CoreTest; shown satisfiable for every core by coreTest_singletons), minimize with min=1, repeat last/always, no time limit, any max >= 1 and any clock returns exactly the original with all reducible atoms outside the core deleted (order and flags kept) — from C03_one_minimal + C04_deletion_minimize + an 'accepted' invariant + sublist/filter lemmas. Theorems C10_test_bound / C10_test_bound_default: under the same hypotheses (core duplicate-free, repeat=last, no repeated first round) the number of tests including the initial check is at most (2m+1)*ceil(log2 n)+5m+8 for EVERY n whose first chunk size is not cut by --max (default --max 2^30: every n <= 2^31), every clock and time limit — potential argument over the rounds (LithiumProofs/CoreBound.lean: every kept block of a round contains a core atom, so a round of chunk size c >= 4 starts with fewer than 2c(m+1) atoms and makes <= 2m+1 tests; the rounds of size 2 and 1 make <= 9m+8). C10_bound_needs_max: the --max hypothesis is necessary (model counterexample with --max 1). The real Minimize.reduce is tied to the model for every (n, core) with n <= 8/10 and for empty/full/prefix/suffix/clustered/spread/random cores with n up to 1025/4096 on line, char and symbol atoms (final atoms + number of tests), and the bound is also monitored there.",
